@@ -394,6 +394,10 @@ func (ex *Ex) BuildSMT(q *Query, rounds int) string {
 	asserts = append(asserts, extra2...)
 	facts, tdefs := ex.typeFacts(asserts)
 	asserts = append(asserts, facts...)
+	// slice lengths are non-negative
+	for _, la := range groundApps(asserts, func(op string) bool { return strings.HasPrefix(op, "len$Slice$") }) {
+		asserts = append(asserts, Ge(la, IntLit(0)))
+	}
 
 	vars := map[string]*T{}
 	apps := map[string]*T{}
